@@ -7,6 +7,7 @@
    string keys in insertion order.  Errors are values.  PyYAML is an oracle (Section variables with
    the contract used); what the code composes around it is modelled literally. *)
 From Coq Require Import ZArith List Bool String Ascii.
+From EmdV Require Import lib.NpLite.
 Import ListNotations.
 Open Scope Z_scope.
 
@@ -128,7 +129,7 @@ Fixpoint no_slash (s : string) : bool :=
 (* SiftConfig.__keytransform__ : one part -> that string, 2..3 parts -> the list, more -> ValueError *)
 Definition keytransform (key : string) : result (list string) :=
   let ps := split_slash key in
-  if (3 <? Z.of_nat (length ps)) then Err ETooDeep else Ok ps.
+  if (3 <? Z.of_nat (List.length ps)) then Err ETooDeep else Ok ps.
 
 (* SiftConfig.__getitem__ / __setitem__ / __delitem__, as written (one case per depth) *)
 Definition getitem (key : string) (store : tree) : result tree :=
@@ -169,6 +170,10 @@ Definition delitem (key : string) (store : tree) : result tree :=
       bind (idx_set b i2' i1) (fun i1' => idx_set a i1' store))))
   | Ok _ => Err ETooDeep
   end.
+
+(* keys usable both ways: one to three levels, none containing the separator *)
+Definition plain_keys (ks : list string) : Prop :=
+  ks <> [] /\ forallb no_slash ks = true /\ (List.length ks <= 3)%nat.
 
 (* two key lists address unrelated entries: they part ways at some level *)
 Fixpoint diverge (ks ks' : list string) : bool :=
@@ -211,33 +216,37 @@ Definition store_after_export (t : tree) : tree :=
   end.
 
 (* "same options, tuples may become lists": equality that does not look at the kind of a sequence *)
+Definition list_sim {A} (f : A -> A -> bool) : list A -> list A -> bool :=
+  fix go (l m : list A) {struct l} : bool :=
+  match l, m with
+  | [], [] => true
+  | x :: l', y :: m' => f x y && go l' m'
+  | _, _ => false
+  end.
+
 Fixpoint val_sim (a b : val) {struct a} : bool :=
-  let seq_sim := fix seq_sim (l : list val) (m : list val) {struct l} : bool :=
-    match l, m with
-    | [], [] => true
-    | x :: l', y :: m' => val_sim x y && seq_sim l' m'
-    | _, _ => false
-    end in
   match a, b with
   | VNone, VNone => true
   | VBool x, VBool y => Bool.eqb x y
   | VInt x, VInt y => Z.eqb x y
   | VFloat x, VFloat y => String.eqb x y
   | VStr x, VStr y => String.eqb x y
-  | (VList l | VTuple l | VArr l), (VList m | VTuple m | VArr m) => seq_sim l m
+  | (VList l | VTuple l | VArr l), (VList m | VTuple m | VArr m) => list_sim val_sim l m
+  | _, _ => false
+  end.
+
+Definition kids_sim (f : tree -> tree -> bool) : list (string * tree) -> list (string * tree) -> bool :=
+  fix go (l m : list (string * tree)) {struct l} : bool :=
+  match l, m with
+  | [], [] => true
+  | (k, x) :: l', (k', y) :: m' => String.eqb k k' && f x y && go l' m'
   | _, _ => false
   end.
 
 Fixpoint tree_sim (a b : tree) {struct a} : bool :=
-  let kids_sim := fix kids_sim (l m : list (string * tree)) {struct l} : bool :=
-    match l, m with
-    | [], [] => true
-    | (k, x) :: l', (k', y) :: m' => String.eqb k k' && tree_sim x y && kids_sim l' m'
-    | _, _ => false
-    end in
   match a, b with
   | Leaf x, Leaf y => val_sim x y
-  | Node l, Node m => kids_sim l m
+  | Node l, Node m => kids_sim tree_sim l m
   | _, _ => false
   end.
 
@@ -304,6 +313,10 @@ Definition split_pair (l : list tree) : result loaded :=
 
 Definition doc_tree (d : ydoc) : tree :=
   match d with DTree t => t | DSeq l => Leaf (VList []) end.
+
+(* what the property asks of a write-then-read: same sift type, same options up to tuple -> list *)
+Definition roundtrip_spec (c : config) : result loaded :=
+  Ok (Leaf (VStr (ctype c)), DTree (listify (cstore c))).
 
 Section Yaml.
   Variable ytext : Type.
@@ -467,22 +480,44 @@ Fixpoint enc_val (v : val) : list Z :=
   | VInt z => [2; z]
   | VFloat r => 3 :: enc_str r
   | VStr s => 4 :: enc_str s
-  | VList l => 5 :: Z.of_nat (length l) :: concat (map enc_val l)
-  | VTuple l => 6 :: Z.of_nat (length l) :: concat (map enc_val l)
-  | VArr l => 7 :: Z.of_nat (length l) :: concat (map enc_val l)
+  | VList l => 5 :: Z.of_nat (List.length l) :: List.concat (map enc_val l)
+  | VTuple l => 6 :: Z.of_nat (List.length l) :: List.concat (map enc_val l)
+  | VArr l => 7 :: Z.of_nat (List.length l) :: List.concat (map enc_val l)
   end.
+
+(* dict entries are rendered in key order (code-point order, as Python sorts ASCII strings): two dicts
+   are compared as Python compares them, without regard to insertion order *)
+Fixpoint str_leb (a b : string) : bool :=
+  match a, b with
+  | EmptyString, _ => true
+  | String _ _, EmptyString => false
+  | String x a', String y b' =>
+      let nx := nat_of_ascii x in
+      let ny := nat_of_ascii y in
+      if Nat.ltb nx ny then true else if Nat.ltb ny nx then false else str_leb a' b'
+  end.
+
+Fixpoint insert_key {A} (k : string) (a : A) (l : list (string * A)) : list (string * A) :=
+  match l with
+  | [] => [(k, a)]
+  | (k', a') :: r => if str_leb k k' then (k, a) :: l else (k', a') :: insert_key k a r
+  end.
+
+Definition sort_keys {A} (l : list (string * A)) : list (string * A) :=
+  fold_right (fun ka acc => insert_key (fst ka) (snd ka) acc) [] l.
 
 Fixpoint enc_tree (t : tree) : list Z :=
   match t with
   | Leaf v => 8 :: enc_val v
-  | Node kids => 9 :: Z.of_nat (length kids)
-                 :: concat (map (fun kt => match kt with (k, c) => enc_str k ++ enc_tree c end) kids)
+  | Node kids => 9 :: Z.of_nat (List.length kids)
+                 :: List.concat (map (fun ke => enc_str (fst ke) ++ snd ke)
+                                     (sort_keys (map (fun kt => match kt with (k, c) => (k, enc_tree c) end) kids)))
   end.
 
 Definition enc_doc (d : ydoc) : list Z :=
   match d with
   | DTree t => enc_tree t
-  | DSeq l => 5 :: Z.of_nat (length l) :: concat (map enc_tree l)
+  | DSeq l => 5 :: Z.of_nat (List.length l) :: List.concat (map enc_tree l)
   end.
 
 Definition err_code (e : err) : Z :=
@@ -520,7 +555,7 @@ Definition step (c : config) (o : op) : list Z * config :=
   | OYamlText => (enc_loaded (text_roundtrip c), exported)
   | OYamlTextV0 => (enc_loaded (text_roundtrip_v0 c), exported)
   | OKeys k => (match keytransform k with
-                | Ok ps => 0 :: Z.of_nat (length ps) :: concat (map enc_str ps)
+                | Ok ps => 0 :: Z.of_nat (List.length ps) :: List.concat (map enc_str ps)
                 | Err e => [err_code e]
                 end, c)
   end.
@@ -530,4 +565,11 @@ Fixpoint run_ops (c : config) (ops : list op) : list (list Z) :=
   match ops with
   | [] => []
   | o :: r => let '(obs, c') := step c o in obs :: enc_tree (cstore c') :: run_ops c' r
+  end.
+
+(* the same with the store summarised by its hash (NpLite.hashL) to keep outputs small *)
+Fixpoint run_ops_h (c : config) (ops : list op) : list (list Z) :=
+  match ops with
+  | [] => []
+  | o :: r => let '(obs, c') := step c o in obs :: [hashL (enc_tree (cstore c'))] :: run_ops_h c' r
   end.
